@@ -64,6 +64,14 @@ CLAIMS = {
          "points (adds the offset, isometry of positive determinant fixing the axis with trace 1+2cos and additive composition, "
          "involution fixing the mirror pointwise = mirror image, maps each frame point); geometer's matrices and images are compared.",
     design="5/C08", technique="TLC enumeration of constructor arguments with definitional invariants + replay of matrices and images"),
+ "C12": dict(
+    text="Purity.tla: a workspace of ~50 objects of every class (2D/3D, single/collection, polytopes with cached supporting "
+         "line/plane, quadrics, transformations) plus module constants and the epsilon/delta caches; every public operation is "
+         "the action Call(op) with UNCHANGED pool and the fresh-workspace answer.  TLC generates every ordered pair of the 203 "
+         "operations (writer x reader matrix) and seeded random histories; each is executed on a freshly built real workspace, "
+         "the bit-exact digest of every object/constant/cache and the answer are logged after every call, and TLC validates the "
+         "log against Purity (rejecting at the writing step or at the reading step).",
+    design="5/C12", technique="TLC-generated call histories + digest-logging trace validation against a purity state machine"),
 }
 
 checks = []
